@@ -558,6 +558,22 @@ def native_method(ex, recv, name, args, kwargs, line):
     if is_strlike(recv):
         c = try_concrete_str(recv) if isinstance(recv, SStr) else recv
         cargs = [try_concrete_str(a) if isinstance(a, SStr) else a for a in args]
+        if name == "join" and c is not None and len(args) == 1 and isinstance(args[0], (PList, PIter, tuple)):
+            items = ex.iter_concrete(args[0], line)
+            conc = [try_concrete_str(x) if isinstance(x, SStr) else x for x in items]
+            if all(isinstance(x, type(c)) for x in conc):
+                return c.join(conc)
+            if not all(is_strlike(x) for x in items):
+                raise Raised(TypeError, line, implicit=True)
+            acc = None      # left fold with the concatenation operator (the separator is concrete)
+            for x in items:
+                if acc is None:
+                    acc = x
+                else:
+                    if len(c):
+                        acc = ex.binop(ast.Add(), acc, c, line)
+                    acc = ex.binop(ast.Add(), acc, x, line)
+            return c if acc is None else acc
         if c is not None and all(not is_sym(a) and a is not None and not isinstance(a, (PList, PDict, Obj))
                                  or isinstance(a, (int, str, bytes)) for a in cargs):
             if name == "format":
